@@ -710,6 +710,10 @@ def gen_ir(rng, n_calls, family=None, rich=True, cfg=None):
         if rich and rng.random() < 0.05:
             # many positionals (> 10) so that string-sorted indices would differ
             args.extend(const(i) for i in range(rng.randint(8, 12)))
+        if rich and rng.random() < 0.3:
+            # plain (node-free) keyword arguments among the symbolic ones: the function receives all of them in the order given
+            for _ in range(rng.choice([1, 1, 2, 3])):
+                kwargs.insert(rng.randint(0, len(kwargs)), (None, const_expr()))
         names = rng.sample(KW, min(len(kwargs), len(KW)))
         kwargs = [(names[i], x) for i, (_, x) in enumerate(kwargs[: len(names)])]
         fk = "val"
